@@ -1252,6 +1252,20 @@ def corpus():
     cs.append({'kind': 'web', 'plugins': [[r'/a$']], 'segs': [
         b'GET /a HTTP/1.1\r\nHost: x\r\n\r\n'.hex(), b'POST /a HTTP/1.1\r\nContent-Length: x\r\n\r\n'.hex()],
         'meta': {'reqs': [], 'segs': [], 'inq': 0}})
+    # request paths that are not UTF-8: 400 before any routing (fix eb09b1e), also in front of the reverse proxy
+    for path in (b'/a\xff', b'/\xc3', b'/b/\xfe\xff?x=1'):
+        cs.append({'kind': 'web', 'plugins': [[r'/a'], [r'/b']], 'segs': [
+            (b'GET ' + path + b' HTTP/1.1\r\nHost: x\r\n\r\n').hex(), b'GET /a HTTP/1.1\r\nHost: x\r\n\r\n'.hex()],
+            'meta': {'reqs': [], 'segs': [], 'inq': 0}})
+        cs.append({'kind': 'web', 'plugins': [[r'/a']], 'segs': [
+            b'GET /a HTTP/1.1\r\nHost: x\r\n\r\n'.hex(), (b'GET ' + path + b' HTTP/1.1\r\nHost: x\r\n\r\n').hex()],
+            'meta': {'reqs': [], 'segs': [], 'inq': 0}})
+        cs.append({'kind': 'rev', 'routes': REV_ROUTES[0], 'rewrite': 0, 'evs': [
+            'c' + (b'GET ' + path + b' HTTP/1.1\r\nHost: x\r\n\r\n').hex(), 'f'], 'meta': {'reqs': [], 'inq': 0}})
+    cs.append({'kind': 'web', 'plugins': [[r'/a']], 'segs': [
+        b'GET /a\xff HTTP/1.1\r\nHost: x\r\nConnection: Upgrade\r\nUpgrade: websocket\r\n\r\n'.hex()],
+        'meta': {'reqs': [], 'segs': [], 'inq': 0}})
+    cs.append(raw_fwd([b'GET http://a\xffb.example:81/x HTTP/1.1\r\nHost: a\r\n\r\n', b'GET http://a.example/ HTTP/1.1\r\n\r\n']))
     # reverse
     cs.append(_wit_rev([b'/a']))
     cs.append(_wit_rev([b'/a', b'/b', b'/a']))
